@@ -28,7 +28,7 @@ Definition check (c : case) : bool :=
       end
   end.
 """
-MODES = ["serial", "thread", "process", "quantum"]
+MODES = ["serial", "thread", "process", "quantum", "Thread", "SERIAL", " serial", "process ", "", "Process"]      # index >= 3: not a documented mode
 
 
 def designated(n, m, modes):
@@ -53,23 +53,32 @@ def ctor_cases(ctx):
         for L in lens:
             for _ in range(2 if ctx.quick else 8):
                 if L == 0: shapes.append((n, m, None)); continue
-                vals = tuple(r.choice(MODES[:3]) if r.random() < 0.85 else "quantum" for _ in range(L))
+                vals = tuple(r.choice(MODES[:3]) if r.random() < 0.85 else r.choice(MODES[3:]) for _ in range(L))
                 shapes.append((n, m, vals))
         shapes.append((n, m, ["serial"] * n))          # a list, not a tuple
+    for bad in MODES[3:]:                              # every undocumented spelling, alone and next to a valid mode
+        shapes += [(2, 2, (bad,)), (2, 3, ("serial", bad)), (1, 2, ("thread", bad))]
     for n, m, modes in shapes:
         algos = tuple(TableOptimizer() for _ in range(n)); tasks = tuple(dummy_task() for _ in range(m))
         meta = {"n": n, "m": m, "modes": modes}
         try:
             mt = Multitask(algos, tasks, modes=modes)
-            got = [[str(mt.__get_mode__(i, j)) for j in range(m)] for i in range(n)]
         except ValueError:
-            got = None
+            mt, got = None, None
         except Exception as e:
-            got = None
+            mt, got = None, None
             ctx.violation(f"ctor:{type(e).__name__}", f"Multitask(n={n}, m={m}, modes={modes!r}) raises {type(e).__name__}: {e}", meta)
+        if mt is not None:
+            try:
+                got = [[str(mt.__get_mode__(i, j)) for j in range(m)] for i in range(n)]
+            except Exception as e:          # accepted at construction, but a pair has no usable mode: the rejection came too late
+                got = "late"
+                ctx.violation("ctor:unknown mode accepted at construction", f"Multitask(n={n}, m={m}, modes={modes!r}) was constructed, but __get_mode__ then raises "
+                              f"{type(e).__name__} (an unknown mode must be rejected at construction)", meta)
         want = designated(n, m, modes) if isinstance(modes, (tuple, type(None))) else None
         if want is not None and any(v not in MODES[:3] for row in want for v in row): want = None
-        if got != want:
+        if got == "late": got = None
+        elif got != want:
             ctx.violation("ctor:mode table" if got is not None and want is not None else "ctor:accept/reject",
                           f"Multitask(n={n}, m={m}, modes={modes!r}): modes used {got!r}, designated {want!r}", meta)
         arg = "(MNone nat)" if modes is None else ("(MNotTuple nat)" if not isinstance(modes, tuple) else f"(MTuple nat {natlist([MODES.index(v) for v in modes])})")
